@@ -771,9 +771,13 @@ func (e *Env) evalIndex(n SIndex) Val {
 	case *types.Array:
 		return Val{T: Select(v.T, i.T), Typ: u.Elem()}
 	case *types.Map:
-		_, _, vk, vs := x.mapComps(u)
+		// as in Go: the element if the key is present, else the zero value
+		hk, hs, vk, vs := x.mapComps(u)
+		has := x.heapGet(e.st, hk, hs)
 		val := x.heapGet(e.st, vk, vs)
-		return Val{T: Select(Select(val, v.T), x.termOf(e.st, &i)), Typ: u.Elem()}
+		kt := x.termOf(e.st, &i)
+		present := And(Not(Eq(v.T, IntLit(0))), Select(Select(has, v.T), kt))
+		return Val{T: Ite(present, Select(Select(val, v.T), kt), x.te.Zero(u.Elem())), Typ: u.Elem()}
 	case *types.Basic:
 		if u.Info()&types.IsString != 0 {
 			if x.te.StrSort == "String" {
